@@ -4,8 +4,9 @@
 
     lshpack_dec_dec_int()            -> `decInt`        (as it is: uint32 limit, 5/6-octet rule)
     lshpack_enc_enc_int()            -> `encInt`
-    hdec_dec_str()                   -> `decStr`        (as it is: absent string = empty string,
-                                                         output-space errors)
+    hdec_dec_str()                   -> `decStr`        (as it is: no input left = empty string;
+                                                         lshpack_dec_decode() checks for a missing
+                                                         value string itself; output-space errors)
     lshpack_enc_enc_str()            -> `encStr` / `encStrLs` (lshpack's own Huffman choice)
     static_table[], dynamic table    -> `staticTable`, `Table` (`evict` = "drop oldest while
                                         over capacity"), `Table.lookup`
@@ -170,12 +171,6 @@ deriving DecidableEq, Repr
 
 def Field.header (f : Field) : Header := (f.name, f.value)
 
-/-- isspace() in the C locale -/
-def isSpaceC (b : UInt8) : Bool := b = 32 || (9 ≤ b && b ≤ 13)
-
-/-- lshpack_dec_decode() strips trailing isspace() octets from a literal name -/
-def trimRight (s : Bytes) : Bytes := (s.reverse.dropWhile isSpaceC).reverse
-
 /-- first-octet dispatch of lshpack_dec_decode() (octets 32..63 = size update are
     handled before): representation kind and the prefix width of the index, or
     `none` when the name is a literal (the octet is skipped) -/
@@ -197,11 +192,13 @@ deriving Repr
 /-- value string of a literal representation, then the optional table insert -/
 def decodeValue (cap : Nat) (d : Dec) (kind : Kind) (n : Bytes) (hint : Nat) (rest : Bytes) :
     ItemRes :=
-  match decStr (cap - n.length) rest with
-  | .error e => .err e d
-  | .ok (v, rest') =>
-    .fld ⟨n, v, hint, decide (kind = .never)⟩ rest'
-      (if kind = .incr then d.push (n, v) hint else d)
+  if rest = [] then .err .badData d       -- the value string literal is missing
+  else
+    match decStr (cap - n.length) rest with
+    | .error e => .err e d
+    | .ok (v, rest') =>
+      .fld ⟨n, v, hint, decide (kind = .never)⟩ rest'
+        (if kind = .incr then d.push (n, v) hint else d)
 
 /-- one call of lshpack_dec_decode() restricted to a single item: either one
     dynamic table size update (the C loops over them inside the call; a size
@@ -234,8 +231,8 @@ def decodeItem (cap : Nat) (d : Dec) : Bytes → ItemRes
               match decStr cap rest1 with
               | .error e => .err e d
               | .ok (raw, rest2) =>
-                if trimRight raw = [] then .err .badData d
-                else decodeValue cap d kind (trimRight raw) 0 rest2
+                if raw = [] then .err .badData d
+                else decodeValue cap d kind raw 0 rest2
           else
             match d.lookup idx with
             | none => .err .badData d
@@ -382,12 +379,10 @@ structure Table.WF (t : Table) : Prop where
   max_lt : t.maxCap < 2 ^ 32
   size_le : tableSize t.dyn ≤ t.curMax
 
-/-- header fields that survive lshpack's decoder unchanged: non-empty name
-    without trailing isspace() octet (lshpack strips those), and name + value
-    fit the decoder's output buffer of `cap` octets -/
+/-- header fields lshpack's decoder can deliver: non-empty name (any octets),
+    name + value fit the decoder's output buffer of `cap` octets -/
 structure HeaderOk (cap : Nat) (h : Header) : Prop where
   name_ne : h.1 ≠ []
-  no_trail : trimRight h.1 = h.1
   fits : h.1.length + h.2.length < cap
 
 end LtVerif.Hpack
